@@ -32,7 +32,7 @@ ASSUMPTIONS = [
     "None), so the library's text-to-type guessing is not involved",
 ]
 
-VALUES = ["z", 7, 2.5, True, None, -7.5, -3, 0, "", 10.0, 2.0]
+VALUES = ["z", 7, 2.5, True, None, -7.5, -3, 0, "", 10.0, 2.0, "None"]
 DOCS = []
 PATHS1 = []
 PATHS2 = []
@@ -145,6 +145,7 @@ def run_shard(shard):
             for sub in ((), (("key", "a"),), (("key", "b"),), (("key", "x"),)):
                 for newname in ("z", "a", "b"):
                     check_rename(st, doc0, text, shp, (base,) + sub, newname)
+        collector_family(st, doc0, text, shp)
         if di == lo:
             st.sample({"doc": text, "op": "set", "path": PATHS2[7][1],
                        "value": "z"})
@@ -153,10 +154,44 @@ def run_shard(shard):
     return st
 
 
+COLL_NAV = (("key", "a"), ("key", "b"), ("idx", 0), ("idx", 1))
+COLL_LAST = (("key", "a"), ("idx", 0), ("idx", -1), ("slice", 0, 2),
+             ("slice", 1, 3), ("all",))
+
+
+def collector_family(st, doc0, text, shp):
+    """A path wrapped in a Collector, (P), names the nodes P names - so a set
+    through it changes exactly those (P matching scalars only); and an index
+    applied to a Collector which gathered one Array, (P)[i], names that
+    Array's element."""
+    singles = [(last,) for last in COLL_LAST]
+    doubles = [(nav, last) for nav in COLL_NAV for last in COLL_LAST]
+    for segs in singles + doubles:
+        if not scalars_only(doc0, segs):
+            continue
+        check_set(st, doc0, text, shp, segs,
+                  "(%s)" % paths.render(segs, "/"), "z")
+    for head in [(nav,) for nav in COLL_NAV] + [
+            (nav, nav2) for nav in COLL_NAV for nav2 in COLL_NAV[:3]]:
+        try:
+            ctxs = refedit.matched(doc0, head)
+        except Exception:                 # pylint: disable=broad-except
+            continue
+        if len(ctxs) != 1 or not corpus.is_list(ctxs[0].node):
+            continue
+        for idx in (0, 1, -1):
+            segs = head + (("idx", idx),)
+            if not scalars_only(doc0, segs):
+                continue
+            check_set(st, doc0, text, shp, segs,
+                      "(%s)[%d]" % (paths.render(head, "/"), idx), "z")
+
+
 FORMAT_DOC = "a: &A old\nb: *A\nc: [*A, x]\nd: old\ne: &E 5\nf: *E\n"
 FORMAT_VALUES = [("BARE", "new", "new"), ("DQUOTE", "new", "new"),
                  ("SQUOTE", "new", "new"),
                  ("FOLDED", "new text here", "new text here"),
+                 ("FOLDED", "ends in a blank ", "ends in a blank "),
                  ("LITERAL", "l1\nl2", "l1\nl2"), ("INT", "12", 12),
                  ("FLOAT", "1.5", 1.5), ("BOOLEAN", "true", True),
                  ("DEFAULT", "new", "new"),
@@ -362,7 +397,7 @@ def scalars_only(doc0, segs):
     itself hold aliases) was replaced."""
     try:
         return all(corpus.is_scalar(c.node)
-                   for c in refedit.matched(doc0, segs))
+                   for c in refedit.matched(doc0, segs, expand_slices=True))
     except Exception:                     # pylint: disable=broad-except
         return False
 
